@@ -80,9 +80,15 @@ func Generate(r *rand.Rand, profile string) *Scenario {
 		nn = pick(1, 1, 2)
 	}
 	gpuMem := pick(16000, 40000, 80000)
+	// nodes with different devices: a gpu-memory request is then a different portion of a device (and a different
+	// charge to the queues) on every node; requests are chosen so that every portion is a whole number of 1/100 GPU
+	hetero := (profile == "fraction" || profile == "mixed" || profile == "sharers") && nn > 1 && chance(0.35)
 	for i := 0; i < nn; i++ {
 		n := Node{Name: fmt.Sprintf("n%d", i+1), Cpu: pick(4000, 8000, 16000, 32000), Mem: pick(16000, 64000), Pods: 110,
 			Gpus: pick(0, 1, 2, 2, 4, 4), GpuMem: gpuMem, Ready: 1}
+		if hetero {
+			n.GpuMem = []int{16000, 40000, 80000}[(i+r.Intn(2))%3]
+		}
 		if profile == "fraction" {
 			n.Gpus = pick(1, 2, 2, 3)
 		}
@@ -299,6 +305,9 @@ func Generate(r *rand.Rand, profile string) *Scenario {
 			t.gpuMem, t.devs = pick(4000, 8000, 10000, 20000), 1
 			if t.gpuMem > gpuMem {
 				t.gpuMem = gpuMem / 2
+			}
+			if hetero {
+				t.gpuMem = pick(4000, 8000, 8000)
 			}
 		case 4:
 			t.frac, t.devs = pick(50, 50, 30), 2
